@@ -67,8 +67,11 @@ PLAN = dict(
                 "share/erase/release, acquire_block in all three cases into a register or a spill slot, a_store = alloc_object and a_load = "
                 "load_object for any number of fields, block pointers in spill slots with the X10 evacuation), the abstract side literally "
                 "shared; the two seeded AArch64 defects (acquire_block into a spill slot clearing the wrong header; register_freed not reset) "
-                "refute these statements on concrete states (C09_a64_seeded_defect1/2_refuted). Link still checked rather than proved for x86-64 and RISC-V (proved for x86-64 in C06 and for AArch64 in C07): that a statement's real code performs exactly the listed "
-                "operations (heaplock-x86 lockstep at every boundary); heapops-x86 and heap-x86 as before",
+                "refute these statements on concrete states (C09_a64_seeded_defect1/2_refuted). RISC-V (round 5, worker rvchain): C09_rv_store (r_store of any number of variables = Heap.alloc_object, chain = the acquired blocks, words of every stored variable, frames), "
+                "C09_rv_store_empty, C09_rv_load (r_load = Heap.load_object (nlinks n) p, both modes, loaded registers = the field words along the chain), with examples (5 fields = 2 blocks "
+                "stored; a shared 2-block object loaded); share/erase/release/acquire on RISC-V against Model/Heap.v are C08_rv_*_heap; Proof/RVMemStoreChain.v, RVMemLoadChain.v, abstract side shared. "
+                "That a statement's real code performs exactly the listed operations is proved for the Gallina models of all three code generators (C06, C07, C08_codegen_simulates) and checked "
+                "on the real x86-64 code (heaplock-x86 lockstep at every boundary); heapops-x86 and heap-x86 as before",
     assumptions=["Model/Heap.v abstracts memory.rs block-granularly; share_block_n, erase_block, release_block, acquire_block, store and load are proved to refine it "
                  "on the x86-64 ISA model under hypotheses (operands are blocks of the heap region, counts do not wrap) that are not yet derived from the invariant",
                  "Sem/AxHeap.v lists, per statement, the allocator operations of the generated code; that the real code performs exactly these is "
